@@ -89,7 +89,9 @@ Inductive c02case :=
          (wire : list pv)           (* the engine.io MESSAGE payloads it produced, in order *)
          (obs : list rx_event)      (* what the peer's handlers / callbacks received, in order *)
 | CallRes (r : pv) (obs : pv)       (* handler returned r; call() on the other side returned obs *)
-| CbArgs (r : pv) (obs : list pv).  (* handler returned r; the emitter's callback was invoked with obs *)
+| CbArgs (r : pv) (obs : list pv)   (* handler returned r; the emitter's callback was invoked with obs *)
+| Unmodified (orig after : pv).     (* a payload object before its first send / after all sends of it:
+                                       emit (and the ACK path) must not modify the application's value *)
 
 Definition frames_eqb (a b : Res (list pv)) : bool := res_eqb (list_eqb pv_eqb) a b.
 Definition rxres_eqb (a b : Res (option rpacket * list rx_event)) : bool :=
@@ -106,6 +108,7 @@ Definition c02_corr (c : c02case) : bool :=
       rxres_eqb (rx_run (jstable_loads jt) (table_mloads mt) dir ser None wire) (Ok (None, obs))
   | CallRes r obs => true
   | CbArgs r obs => true
+  | Unmodified orig after => true
   end.
 (* bit 2: the property, from the SENT values only *)
 Definition c02_prop (c : c02case) : bool :=
@@ -113,6 +116,7 @@ Definition c02_prop (c : c02case) : bool :=
   | Stream ser dir ms jt mt wire obs => list_eqb rx_event_eqb obs (map msg_call ms)
   | CallRes r obs => pv_eqb obs (call_result (pack r))
   | CbArgs r obs => list_eqb pv_eqb obs (pack r)
+  | Unmodified orig after => pv_eqb after orig
   end.
 
 Definition c02_eval (c : c02case) : nat :=
@@ -127,6 +131,7 @@ Definition c02_explain (c : c02case) :=
        map msg_call ms)
   | CallRes r obs => (Ok [], Ok (None, []), [AckCall [] None [call_result (pack r)]])
   | CbArgs r obs => (Ok [], Ok (None, []), [AckCall [] None (pack r)])
+  | Unmodified orig after => (Ok [], Ok (None, []), [AckCall [] None [orig]])
   end.
 
 (* ---- soundness of the property checker ---- *)
@@ -151,10 +156,12 @@ Theorem c02_prop_sound c : c02_prop c = true ->
   | Stream ser dir ms jt mt wire obs => obs = map msg_call ms
   | CallRes r obs => obs = call_result (pack r)
   | CbArgs r obs => obs = pack r
+  | Unmodified orig after => after = orig
   end.
 Proof.
-  destruct c as [ser dir ms jt mt wire obs|r obs|r obs]; cbn [c02_prop]; intro H.
+  destruct c as [ser dir ms jt mt wire obs|r obs|r obs|orig after]; cbn [c02_prop]; intro H.
   - apply (list_eqb_eq _ rx_event_eqb_eq). exact H.
   - apply pv_eqb_eq. exact H.
   - apply (list_eqb_eq _ pv_eqb_eq). exact H.
+  - apply pv_eqb_eq. exact H.
 Qed.
